@@ -55,7 +55,6 @@ COMPONENTS = {
         "the insert_stream worker thread of the server is run synchronously at end-of-stream (wiresim._DeferredThread)",
         "lock info files: pid 1 and virtual-clock start time instead of the real pid / wall clock (wiresim.pin_lock_info; their lengths would otherwise leak into message sizes)",
         "source repository S on a third store, always accessed locally and fault-free by both sides",
-        "in runs that look past the open medium finding the observation wrapper of _send_no_retry resets the client medium when a retransmission is reset (what fixes/C32-client-reset-medium-after-failed-retransmission.diff does)",
     ],
 }
 ASSUMPTIONS = [
@@ -75,7 +74,7 @@ ASSUMPTIONS = [
     "(only the physical lock may leak, and branch.conf-backed values may be lost: both happen in unlock, whose errors breezy suppresses by design, locally as well); after a reported failure the "
     "operation is repeated on the SAME objects inside the SAME outer lock (tag/config/tip/parent operations, pull/push/fetch, reads) and must then succeed with the local result and state, "
     "unless the first attempt had already been applied (eof_send) and the repeat is refused with the state already equal; "
-    "'inplace' runs use the medium as breezy leaves it (open finding: unusable after a failed retransmission), 'inplace_reset'/'reopen' runs reset it the way the candidate fix does, to look past that finding",
+    "the client medium is used exactly as breezy leaves it after a failed retransmission (fix 09441a8; a medium left unusable is reported as inplace_retry/medium-unusable-after-failed-retransmission)",
     "blocking-pipe read semantics (read(n) blocks until n bytes) are C30's subject; here reads are short-read style (atmost/greedy)",
 ]
 ISOLATION = "fork"
@@ -413,7 +412,6 @@ class _Watch:
         self.op_verbs = []
         self.retried = []
         self.unsafe = []  # verbs re-sent although their body stream had been (partly) consumed
-        self.heal = False  # see _send_no_retry
 
 
 def _watch():
@@ -462,14 +460,6 @@ def _install_hooks():
             if nsent and a is not None and a["double"] and a["request"] is self and not a.get("second"):
                 a["second"] = {"req": idx, "kind": "send", "write": 0}  # the client's one retransmission is lost too
                 w.ww.resets.append(a["second"])
-            if nsent and w.heal:
-                try:
-                    return orig(self, encoder)
-                except ConnectionResetError:
-                    # runs that look past the open finding "medium unusable after a failed retransmission"
-                    # do here what the candidate fix does in _send/_call
-                    self.client._medium.reset()
-                    raise
         return orig(self, encoder)
 
     _send_no_retry._c32 = True
@@ -837,7 +827,6 @@ def execute(sim, plan):
         n0 = ww.nreq
         spec = watch.pending
         store_err = spec is not None and spec["kind"] == "store_err"
-        watch.heal = bool(spec) and spec.get("recover", "reopen") != "inplace"
         if store_err:
             watch.pending = None
             nerr0 = sim.faults_fired["err_before"]
@@ -915,8 +904,6 @@ def execute(sim, plan):
             if not b_ok and recover in ("inplace", "inplace_reset") and opk in INPLACE_OPS and (server_saw_nothing or armed["kind"] == "store_err" or armed["cls"] in ("read", "idem")):
                 # ---- the caller simply tries again: same objects, same (outer) lock -------------
                 sim.probe("inplace_retry")
-                if recover == "inplace_reset" and ww.shared_medium is not None:
-                    ww.shared_medium.reset()  # what a caller that knows about the stuck medium does first (see known findings)
                 if A.depth:
                     sim.probe("inplace_retry_inside_outer_lock")
                 where = "inside-lock" if A.depth else "unlocked"
@@ -962,8 +949,6 @@ def execute(sim, plan):
                 A.branch.unlock()
             # B's client leaves its `with branch.lock_write():` block too: unlock is attempted (it flushes
             # pending branch.conf changes like A's does) on a re-established connection; errors are ignored
-            if B.depth and ww.shared_medium is not None:
-                ww.shared_medium.reset()
             while B.depth and B.branch is not None:
                 B.depth -= 1
                 try:
